@@ -83,7 +83,7 @@ fn nontrivial_rule(prop: &str) -> &'static str
     match prop
     {
         "C01" => "programs are drawn from the seeded generator (profile C01); non-trivial = at least 2 registrations applied and 2 reactions delivered; distinct = distinct hash of the full observed trace",
-        "C02" => "profile C02; non-trivial = at least one delivery postponed because its target was executing; distinct = distinct observed trace",
+        "C02" => "profiles C02 and C09P (polled reactions at tree boundaries); non-trivial = at least one delivery postponed because its target was executing; distinct = distinct observed trace",
         "C03" => "profile C03; non-trivial = at least 2 deliveries postponed for a busy system or one system reacting to 2+ event kinds in one tree; distinct = distinct observed trace",
         "C04" => "profile C04; non-trivial = at least one probe system with every reader ran and one reactor body ran; distinct = distinct observed trace",
         "C05" => "profile C05; non-trivial = at least one payload event and at least one of: reader skipped (dead), reader postponed, revoke applied; distinct = distinct observed trace",
@@ -109,7 +109,7 @@ fn profiles_for(prop: &str) -> Vec<&'static str>
 {
     match prop
     {
-        "C01" => vec!["C01"], "C02" => vec!["C02"], "C03" => vec!["C03"], "C04" => vec!["C04"], "C05" => vec!["C05"], "C06" => vec!["C06"],
+        "C01" => vec!["C01"], "C02" => vec!["C02", "C09P"], "C03" => vec!["C03"], "C04" => vec!["C04"], "C05" => vec!["C05"], "C06" => vec!["C06"],
         "C07" => vec!["C07"], "C08" => vec!["C08", "C08F"], "C09" => vec!["C09", "C09P"], "C10" => vec!["C10"], "C11" => vec!["C11", "C09P"], "C12" => vec!["C12"],
         "C13" => vec!["C13"], "C14" => vec!["C14"], "C15" => vec!["C15"], "C16" => vec!["C16"], "C17" => vec!["C17"], _ => vec!["C18"],
     }
